@@ -145,7 +145,7 @@ static int count_fds(void)
     return n;
 }
 
-static unsigned long long n_prim_used, n_eval, n_success, n_permanent, n_os_calls, n_prng, n_long, n_fd_census;
+static unsigned long long n_usable, n_prim_used, n_eval, n_success, n_permanent, n_os_calls, n_prng, n_long, n_fd_census;
 static int want_prim = 0;
 
 static void run_script(const args_t *a, long idx, const unsigned char *pre, long npre, int all_eintr, int end, int via_prng)
@@ -185,6 +185,17 @@ static void run_script(const args_t *a, long idx, const unsigned char *pre, long
         m_drbg_init(&sh, seed, (const uint8_t *)"c18", 3);
         for (pos = 0; pos < sizeof exp; pos += 32) m_drbg_block(&sh, exp + pos, sizeof exp - pos < 32 ? sizeof exp - pos : 32);
         if (memcmp(out, exp, sizeof out)) emit_viol("prng-after-os-fault-mismatch", "PRNG output after the OS call ended with %s is not the Hash_DRBG of the %s seed", END_NAME[end], expect_ok ? "OS-provided" : "zeroed");
+        /* "remaining usable": an explicit reseed and more than 1 KiB of output (automatic reseed) after the scripted
+         * init; the OS now answers normally (the script is over: the real libc call is used) */
+        {
+            static uint8_t more[1200];
+            int j, nonconst = 0;
+            (void)tinyjambu_prng_reseed(&st);
+            tinyjambu_prng_generate(&st, more, sizeof more);
+            for (j = 1; j < (int)sizeof more; ++j) if (more[j] != more[0]) { nonconst = 1; break; }
+            if (!nonconst || !memcmp(more, more + 32, 32)) emit_viol("prng-unusable-after-os-fault", "output after a failed/faulty init is constant or repeating");
+            ++n_usable;
+        }
         tinyjambu_prng_free(&st);
     } else {
         if (sigsetjmp(S.spin, 1) == 0) { S.active = 1; rc = tinyjambu_trng_generate(buf); S.active = 0; }
@@ -237,7 +248,7 @@ int main(int argc, char **argv)
       for (k = 0; k < 2; ++k) for (e = 0; e < 2; ++e, ++idx) if (mine(&a, idx)) { run_script(&a, idx, NULL, LONGS[k], 1, e ? E_EPERM : E_OK, 0); ++n_long; } }
     emit_stat("evaluations", n_eval); emit_stat("scripts_ending_in_success", n_success); emit_stat("scripts_ending_in_permanent_error", n_permanent);
     emit_stat("os_entropy_calls_observed", n_os_calls); emit_stat("scripts_through_prng_init", n_prng); emit_stat("long_prefix_scripts", n_long);
-    emit_stat("fd_census_comparisons", n_fd_census);
+    emit_stat("fd_census_comparisons", n_fd_census); emit_stat("prng_usability_runs_after_fault", n_usable);
     emit_stat("scripts_that_reached_the_variants_primitive", n_prim_used);
     if (n_eval > 10 && n_prim_used == 0 && !g_nviol) {      /* the instrument never saw the call it is supposed to script */
         fprintf(stderr, "build variant %s never called its OS primitive: harness does not reach the code\n", a.mode);
